@@ -118,12 +118,34 @@ def run(ctx):
             ctx.broken.append("harness build failed (hx_gc, %s)" % prof)
             ctx.log(log[-3000:])
             return
-        rc, out = vlib.sh([paths["hx_gc"], "--seed", str(ctx.seed), "--programs", str(nprog), "--file", cfile,
-                           "--dumps-per-run", str(dumps_per_run)], timeout=3000)
-        if rc != 0:
-            ctx.violation("hx_gc-crash", "GC harness crashed (abort inside the VM during a scheduled collection?)",
-                          {"profile": prof, "output_tail": out[-2000:]})
-            return
+        out, start, crashes = "", 0, 0
+        while True:
+            rc, o = vlib.sh([paths["hx_gc"], "--seed", str(ctx.seed), "--programs", str(nprog), "--file", cfile,
+                             "--dumps-per-run", str(dumps_per_run), "--start", str(start)], timeout=3000)
+            out += o
+            if rc == 0:
+                break
+            # the process died inside a run (stack overflow / abort in the VM): attribute it to the run
+            # announced by the last S line, classify by the loss events printed before the crash, go on
+            crashes += 1
+            lastS, evs, src = None, [], None
+            srcs = {}
+            for line in o.splitlines():
+                t = line.split("\t")
+                if t[0] == "P" and len(t) == 4:
+                    srcs[int(t[1])] = unesc(t[3])
+                elif t[0] == "S" and len(t) == 3:
+                    lastS, evs = (int(t[1]), t[2]), []
+                elif t[0] == "E" and len(t) == 4 and lastS == (int(t[1]), t[2]):
+                    evs.append(t[3])
+            if lastS is None or crashes > 20:
+                ctx.violation("hx_gc-crash", "GC harness crashed before/after any run", {"profile": prof, "output_tail": o[-2000:]})
+                return
+            sig = "gc-schedule-diff:" + ("after:" + "+".join(sorted(set(evs), reverse=True)) if evs else "no-known-loss-event")
+            ctx.violation(sig, f"the VM aborts the process (stack overflow / abort) under GC schedule {lastS[1]}; tail: {o[-300:]!r}",
+                          {"source": srcs.get(lastS[0]), "schedule": lastS[1], "profile": prof, "process_exit": rc})
+            ctx.cov["process_aborts"] = ctx.cov.get("process_aborts", 0) + 1
+            start = lastS[0] + 1
         progs, runs, probs, dumps = parse(out)
         # ---- direct oracle, part 1: the audit of every collection (computed by the harness on the
         # implementation's own heap, independent of the Coq model)
